@@ -16,6 +16,9 @@ LBL = lambda x, y: type(x) is type(y) and getattr(x, 'n', x) == getattr(y, 'n', 
 def cases(draw, ml):
     o = draw(gen.tree_descs(ml, leaf=LEAF))
     i = draw(gen.tree_descs(max(3, ml // 2), leaf=LEAF, max_depth=3))
+    if draw(st.integers(0, 4)) == 0:
+        # stratum: the inner structure is a plain tuple of arity 1-2 (its varied shape is a same-arity namedtuple)
+        i = ['tuple', [draw(gen.tree_descs(2, leaf=LEAF, max_depth=2)) for _ in range(draw(st.integers(1, 2)))]]
     nrest = draw(st.sampled_from([0, 0, 1, 2]))
     rests = []
     sub = gen.tree_descs(3, max_depth=2, min_leaves=2)
@@ -145,7 +148,7 @@ class C10(runner.Prop):
                 row = [U.Leaf(1001 + 2 * (k * 100 + b)) for b in range(N)]
                 out = model.rebuild(msi, iter(row))
                 if vary and ((vary == 'second' and k == 1) or (vary == 'last' and k == M - 1)):
-                    if msi.kind == 'tuple' and len(msi.children) <= 2 and case.get('given_inner') is not None and len(calls) % 2:
+                    if msi.kind == 'tuple' and len(msi.children) <= 2:
                         # same arity and children, but a tuple *subclass* (namedtuple) where a plain tuple is expected
                         return [U.NT0, U.NT1, U.NT2][len(msi.children)](*out)
                     return U.CG(out, tag='vary')      # a shape no generated inner structure is a prefix of
